@@ -8,6 +8,8 @@ import json, sys
 ANGLES = {
     1: "Prefer a change made of TWO cooperating sites that each look fine alone (for instance a helper that becomes slightly more permissive plus a caller that relied on the strictness; a cache plus a reset that forgets it; a copy that shares one more field plus a later write through it), or one that needs a multi-step sequence of operations (several loads and Process calls, a failed load in between, a later revision arriving, reading before writing) to manifest.",
     2: "Prefer a change that needs an UNUSUAL INPUT SHAPE to manifest: a rarely combined pair of YANG features, a statement in an unusual place (inside rpc/action input or output, a notification, a case, a submodule of an imported module, a grouping used from another module, a nested union, a leaf-list), an extreme or boundary value, an odd but legal layout, or a particular order of statements/files. Ordinary modules (a container with a few leaves, a plain typedef, a single augment) must behave exactly as before.",
+    3: "Prefer a change that hides behind an OPTION, a LESS-TRAVELLED ENTRY POINT or a YANG FEATURE that real-world modules use but toy examples do not: the library's ParseOptions (StoreUses, IgnoreSubmoduleCircularDependencies, DeviateOptions.IgnoreDeviateNotSupported), Modules.Read / GetModule / FindModule / AddPath and the search path, yangentry.Parse, the goyang command and its output formats, rarely used accessors; or YANG constructs such as yang-version 1.1 features (action, notification inside containers, anydata, several bases per identity), several revision statements, ordered-by, min/max-elements, presence, status, when/must, if-feature, extension statements, leaf-list defaults, bits, decimal64, unions inside unions, deviations with several deviate statements, submodules including submodules. With default options and plain modules everything must behave exactly as before.",
+    4: "Prefer a change whose motive is PERFORMANCE or ROBUSTNESS (a cache, a memo, a sync.Pool, an early exit, a fast path, avoiding a copy or an allocation, a size hint, batching) or ERROR HANDLING (an error that is now swallowed, de-duplicated, attached to another node, reported once instead of each time, or turned into a default), and which goes wrong only when a SECOND condition holds as well: a size or count threshold is crossed, a call is repeated, two things share a key, a particular order of insertion or of map iteration occurs, a value sits exactly on a boundary.",
 }
 
 def main():
